@@ -372,7 +372,7 @@ package container
 //@   arith bv
 //@   requires !M.pivoted && !M.detached && M.nm == 0 && M.nrm == 0 && M.nmask == 0 && len(c.Mounts) < 1048576 && len(c.MaskPaths) < 1048576
 //@   requires forall k int :: 0 <= k && k < len(c.Mounts) ==> c.Mounts[k].Flags & 32 == 0
-//@   assigns M.nm, M.m_src, M.m_tgt, M.m_type, M.m_flags, M.m_data, M.nrm, M.rm_tgt, M.rm_flags, M.root_ro, M.pivoted, M.pivot_new, M.pivot_old, M.detached
+//@   assigns M.nm, M.m_src, M.m_tgt, M.m_type, M.m_flags, M.m_data, M.nrm, M.rm_tgt, M.rm_flags, M.root_ro, M.pivoted, M.pivot_new, M.pivot_old, M.detached, G.made
 //@   ensures result == nil ==> M.pivoted && M.pivot_new == c.ContainerRoot && M.detached && M.root_ro
 //@   callsite syscall.PivotRoot: assert @C05 newroot == c.ContainerRoot && M.nm == 1 + len(c.Mounts) && !M.pivoted
 //@   callsite syscall.Chdir: assert @C05 path == c.ContainerRoot && M.nm == 1 && M.m_tgt == c.ContainerRoot && M.m_type == "tmpfs"
